@@ -1,0 +1,11 @@
+//go:build verif
+
+package litestream
+
+import "context"
+
+// VerifPageMap exposes the unexported WALReader.pageMap(ctx, maxBytes) to the
+// verification harness in /verif (add-only hook, compiled only with -tags verif).
+func (r *WALReader) VerifPageMap(ctx context.Context, maxBytes int64) (m map[uint32]int64, maxOffset int64, commit uint32, limited bool, err error) {
+	return r.pageMap(ctx, maxBytes)
+}
